@@ -31,8 +31,12 @@ def run(tier, seed):
     except ImportError:
         pass
     cov = {"candidates": ncand, "confirmed": nconf, "unconfirmed": nunconf, "details": details[:20], "missing_deexcitation": missing, "extra_layers": extra_results}
-    return sc.finish("C02", tier, seed, "translation_validation", sr, res, rep, agg, samples, cov, t0,
-                     "product of each real *low de-excitation routine (every level genbbsub tabulates or the routine names) with the f2x translation of the reference")
+    rc = sc.finish("C02", tier, seed, "translation_validation", sr, res, rep, agg, samples, cov, t0,
+                   "product of each real *low de-excitation routine (every level genbbsub tabulates or the routine names) with the f2x translation of the reference; "
+                   "plus the 25 spectral density functions of decay0_bb against their translated reference functions (extra_layers)")
+    if any(l.get("broken") for l in extra_results):
+        rc = rc or 2
+    return rc
 
 
 def replay(path):
